@@ -10,6 +10,7 @@ mod entropy;
 mod exec;
 mod gen;
 mod homology;
+mod lowindex;
 mod minimise;
 mod plan;
 mod pool;
@@ -143,6 +144,17 @@ fn main() {
             // prism tiling), found by computing invariant strings only
             let code = selftest::curate_sg_witnesses(&args[2..]);
             std::process::exit(code);
+        }
+        "show-input" => {
+            // print the symbol a spec's builder-side transformations produce
+            let text = std::fs::read_to_string(args.get(2).cloned().unwrap_or_else(|| usage())).expect("read spec");
+            let v: serde_json::Value = serde_json::from_str(&text).expect("json");
+            let spec = spec::Spec::from_json(&v).expect("spec");
+            let mut ex = exec::Executor::new(false);
+            match ex.show_input(&spec) {
+                Ok(t) => println!("{}", t),
+                Err(e) => println!("error: {}", e),
+            }
         }
         "seam-selftest" => match entropy::selftest() {
             Ok(()) => println!("seam R ok: interposed getrandom controls RandomState"),
